@@ -24,7 +24,12 @@ values, `add.period$` / `empty$` / `change.case$` on the integer 0, `warning$` o
 < 1, `chr.to.int$`: `BibTeXError` on anything but a one-character string), with three exceptions
 marked `unmodelled:` in the error text (Python computes the `repr` of an object there):
 `int.to.str$`, `warning$` and the `format.name$` warning on a function / variable object, and
-`write$` of a non-string (Python fails at the next `newline$`).
+`write$` of a non-string (Python fails at the next `newline$`); and `int.to.chr$` of a surrogate code
+point (0xD800–0xDFFF: Python's `chr` returns a lone surrogate, which a Lean `Char` cannot hold).
+
+`St.trace` is a ghost component: the list of the `write$` / `newline$` calls executed so far (an
+`OutEv` each).  Nothing in the model reads it and the driver does not print it; the output
+theorems of C03 are stated over it.
 
 Known abstractions: a value pushed by `'name` is modelled as a reference *by name* into the
 variable table (the code pushes the object itself); the two differ only if `INTEGERS`/`STRINGS`
@@ -37,6 +42,7 @@ import PybtexModel.Model.NameFormat
 import PybtexModel.Model.Width
 import PybtexModel.Model.Wrap
 import PybtexModel.Model.BibParse
+import PybtexModel.Model.BibWrite
 import PybtexModel.Model.Citations
 import PybtexModel.Model.Crossref
 
@@ -97,6 +103,12 @@ inductive Report where
   | invalidName (name : Str)            -- `Person()` inside format.name$
 deriving Repr
 
+/-- an output event: a `write$` call with the text it was given, a `newline$` call -/
+inductive OutEv where
+  | write (x : Str)
+  | newline
+deriving Repr, DecidableEq
+
 structure St where
   stack : List Val := []
   vars : CIDict VarObj
@@ -110,6 +122,9 @@ structure St where
   cur : Option Str := none
   reports : List Report := []
   printed : List Str := []
+  /-- ghost component (not part of the Python state, nothing reads it): the `write$` / `newline$`
+  calls executed so far, in order — the vocabulary in which the output theorems are stated -/
+  trace : List OutEv := []
 
 def initVars : CIDict VarObj :=
   let v := CIDict.ofPairs (builtinTable.map fun p => (p.1.toList, VarObj.builtin p.2))
@@ -547,7 +562,10 @@ def runBuiltin : Nat → Builtin → St → Except IErr St
       match popInt s with
       | .error e => .error e
       | .ok (n, s) =>
-        if 0 ≤ n ∧ n < 0x110000 then .ok (push s (.str [Char.ofNat n.toNat]))
+        if 0xD800 ≤ n ∧ n ≤ 0xDFFF then
+          -- Python's `chr` gives a lone surrogate; a Lean `Char` cannot hold one (`Char.ofNat` would be `'\0'`)
+          .error (.internal "unmodelled: chr() of a surrogate code point")
+        else if 0 ≤ n ∧ n < 0x110000 then .ok (push s (.str [Char.ofNat n.toNat]))
         else if n < -2147483648 ∨ 2147483647 < n then .error (.internal "OverflowError: chr")   -- not a C int
         else .error (.bibtex "passed to int.to.chr$")
     | .intToStr =>
@@ -563,7 +581,8 @@ def runBuiltin : Nat → Builtin → St → Except IErr St
       | .ok (.missing _, s) => .ok (push s (.int 1))
       | .ok (_, s) => .ok (push s (.int 0))
     | .newline =>
-      .ok { s with lines := s.lines ++ [Wrap.wrapDefault s.buffer.flatten, ['\n']], buffer := [] }
+      .ok { s with lines := s.lines ++ [Wrap.wrapDefault s.buffer.flatten, ['\n']], buffer := [],
+                   trace := s.trace ++ [.newline] }
     | .numNames =>
       match popStr s with
       | .error e => .error e
@@ -668,8 +687,8 @@ def runBuiltin : Nat → Builtin → St → Except IErr St
     | .write =>
       match pop s with
       | .error e => .error e
-      | .ok (.str x, s) => .ok { s with buffer := s.buffer ++ [x] }
-      | .ok (.missing _, s) => .ok { s with buffer := s.buffer ++ [[]] }
+      | .ok (.str x, s) => .ok { s with buffer := s.buffer ++ [x], trace := s.trace ++ [.write x] }
+      | .ok (.missing _, s) => .ok { s with buffer := s.buffer ++ [[]], trace := s.trace ++ [.write []] }
       | .ok _ => .error (.internal "unmodelled: write$ of a non-string (Python fails at the next newline$)")
 
 end
@@ -700,7 +719,9 @@ def overwrite (v : VarObj) : List BTok → St → Except IErr St
     | .error e => .error e
     | .ok n => overwrite v ts { s with vars := s.vars.setItem n v }
 
-/-- `_iterate`. -/
+/-- `_iterate` (repaired, proposed fix C03-1: the misspelt `self.currentEntry = None` left the last
+entry current for a following `EXECUTE`; now the three `current_entry…` attributes exist only while
+the function runs for an entry, so outside `ITERATE` / `REVERSE` no entry is current). -/
 def iterate (fuel : Nat) (f : VarObj) : List Str → St → Except IErr St
   | [], s => .ok s
   | k :: ks, s =>
@@ -711,7 +732,7 @@ def iterate (fuel : Nat) (f : VarObj) : List Str → St → Except IErr St
       else
         match execObj fuel f { s with cur := some k } with
         | .error e => .error e
-        | .ok s => iterate fuel f ks s
+        | .ok s => iterate fuel f ks { s with cur := none }
 
 /-- stable insertion sort by code-point order of the keys (= `list.sort(key=…)`). -/
 def insertSorted (x : Str × Str) : List (Str × Str) → List (Str × Str)
@@ -729,8 +750,10 @@ structure Input where
   BibTeXML) delivers; they go through the same `add_entry` (wanted-set filtering, first key wins) -/
   alt : Option (List (Str × Bib.Entry) × List Str) := none
 
+/-- what a style sees of a person field: `str(person)` of every person (`Person.__str__` with the
+repair C02-1: a name without first names keeps its empty First part, "Last, Jr," / "World Bank,") -/
 def personsToStr (ps : List (Str × List Person)) : CIDict (List Str) :=
-  CIDict.ofPairs (ps.map fun r => (r.1, r.2.map Person.toStr))
+  CIDict.ofPairs (ps.map fun r => (r.1, r.2.map BibWrite.personStr))
 
 def convertDb (db : Bib.Db) : BibData :=
   { entries := db.entries.foldl (fun d e =>
